@@ -15,6 +15,7 @@
 #include <set>
 #include <sstream>
 #include <unordered_map>
+#include <functional>
 
 namespace {
 
@@ -805,6 +806,40 @@ namespace sx {
     e.model_valid      = false;
     if (r == z3::unsat) return PROVED;
     if (r == z3::sat) { fill_model(m); return REFUTED; }
+    // 3. last resort: abstract every uninterpreted application by a fresh real (sound for unsat) and let nlsat decide
+    {
+      std::unordered_map<unsigned, z3::expr> amap;
+      std::function<z3::expr(const z3::expr &)> abs = [&](const z3::expr & t) -> z3::expr {
+        if (!t.is_app() || t.num_args() == 0) return t;
+        auto it = amap.find(t.id());
+        if (it != amap.end()) return it->second;
+        z3::expr_vector args(e.ctx);
+        for (unsigned i = 0; i < t.num_args(); i++) args.push_back(abs(t.arg(i)));
+        z3::expr r2(e.ctx);
+        if (t.decl().decl_kind() == Z3_OP_UNINTERPRETED) {
+          // key on the abstracted arguments so that equal applications share one variable
+          std::string key = t.decl().name().str();
+          for (unsigned i = 0; i < args.size(); i++) key += "#" + std::to_string(args[i].id());
+          r2 = e.ctx.real_const(("uf!" + key).c_str());
+        } else r2 = t.decl()(args);
+        amap.emplace(t.id(), r2);
+        return r2;
+      };
+      try {
+        z3::solver ns = z3::tactic(e.ctx, "qfnra-nlsat").mk_solver();
+        z3::params p(e.ctx);
+        p.set("timeout", timeout_ms ? timeout_ms : e.opt.prove_timeout_ms);
+        ns.set(p);
+        for (const z3::expr & a : e.pc) ns.add(abs(a));
+        ns.add(abs(!c));
+        auto t0 = clk::now();
+        z3::check_result r3 = ns.check();
+        e.st.solver_seconds += std::chrono::duration<double>(clk::now() - t0).count();
+        e.st.prove_queries++;
+        if (r3 == z3::unsat) return PROVED;
+      } catch (z3::exception &) {
+      }
+    }
     e.st.prove_unknown++;
     return UNKNOWN;
   }
